@@ -529,3 +529,35 @@ func Replay(t *testing.T, r *Rec, rp Replayer) {
 		}
 	}
 }
+
+// WithSpare returns a copy of x that has spare capacity behind it filled with a known pattern, and a function that
+// reports whether the copy and the spare bytes are still intact: code under test must neither modify its argument nor
+// append into the caller's memory.
+func WithSpare(x []byte) (arg []byte, intact func() bool) {
+	const tail = "\xa5SPARE-CAPACITY\x5a"
+	buf := make([]byte, 0, len(x)+len(tail))
+	buf = append(buf, x...)
+	buf = append(buf, tail...)
+	orig := append([]byte(nil), x...)
+	return buf[:len(x)], func() bool {
+		return string(buf[:len(x)]) == string(orig) && string(buf[len(x):len(x)+len(tail)]) == tail
+	}
+}
+
+// Stable checks that a result handed out by the code under test stays what it was while disturb makes further calls
+// with other inputs (results must not alias memory that a later call reuses). what is only called on failure.
+func Stable(what func() string, got []byte, disturb func()) *Fail {
+	snapshot := append([]byte(nil), got...)
+	disturb()
+	if string(snapshot) != string(got) {
+		return Failf("result-changed-by-later-call", "%s returned %q, which turned into %q after a later call with other arguments", what(), trunc(snapshot, 300), trunc(got, 300))
+	}
+	return nil
+}
+
+func trunc(b []byte, n int) []byte {
+	if len(b) > n {
+		return b[:n]
+	}
+	return b
+}
